@@ -63,6 +63,24 @@ class Ctx:
             self.assumptions.append(s)
 
 
+def import_clauses(ctx, module_pid, runner, clauses=None, as_clause=None):
+    """Re-run (part of) another rule in a sub-context and import its obligations (optionally only some clauses) under this
+    property.  Returns True when all imported obligations hold."""
+    sub = Ctx(module_pid, ctx.tier, ctx.config, ctx.prog)
+    runner(sub)
+    ok = True
+    for o in sub.obligations:
+        if clauses is not None and o["clause"] not in clauses and o["clause"] != "anchor":
+            continue
+        k = o["key"].split("|", 2)[2]
+        ctx.ob(as_clause or ("%s.%s" % (module_pid, o["clause"])), k, o["ok"], o["detail"], o["loc"])
+        ok = ok and o["ok"]
+    ctx.analysed_fns |= sub.analysed_fns
+    for a in sub.assumptions:
+        ctx.assume("[%s] %s" % (module_pid, a))
+    return ok
+
+
 def load_known():
     if not os.path.exists(KNOWN):
         return []
